@@ -128,11 +128,11 @@ theorem mean_map_add {α : Type} (f g : α → ℚ) (xs : List α) :
 theorem wsq_vec_nil_left (r : List ℚ) : wsq (.vec []) r = 0 := by simp [wsq]
 
 theorem wsq_vec_cons (w : ℚ) (ws : List ℚ) (a : ℚ) (r : List ℚ) :
-    wsq (.vec (w :: ws)) (a :: r) = w * sq a + wsq (.vec ws) r := by simp [wsq]
+    wsq (.vec (w :: ws)) (a :: r) = w * sqr a + wsq (.vec ws) r := by simp [wsq]
 
 /-- closed form of one row: `Σ_{c < |r|} w_c · r_c²`, a scalar weight being broadcast -/
 theorem wsq_eq_indexed (w : Weight) (r : List ℚ) :
-    wsq w r = ((List.range r.length).map fun c => w.get c * sq (r.getD c 0)).sum := by
+    wsq w r = ((List.range r.length).map fun c => w.get c * sqr (r.getD c 0)).sum := by
   cases w with
   | scalar a =>
     induction r with
@@ -155,7 +155,7 @@ theorem wsq_eq_indexed (w : Weight) (r : List ℚ) :
 /-- **closed form of the dynamic term**: `(1/|xs|) Σ_{x ∈ xs} Σ_c w_c · r_c(x)²`. -/
 theorem dynTerm_closed_form {α : Type} (w : Weight) (r : α → List ℚ) (xs : List α) :
     dynTerm w r xs =
-      (xs.map fun x => ((List.range (r x).length).map fun c => w.get c * sq ((r x).getD c 0)).sum).sum
+      (xs.map fun x => ((List.range (r x).length).map fun c => w.get c * sqr ((r x).getD c 0)).sum).sum
         / (xs.length : ℚ) := by
   simp only [dynTerm, mean, List.length_map, wsq_eq_indexed]
 
@@ -240,10 +240,10 @@ theorem dynTerm_halves {α : Type} (w : Weight) (r : α → List ℚ) (xs ys : L
 /-- a concrete two-component residual map on a three-point batch, per-component weight -/
 example :
     dynTerm (.vec [2, 1/2]) (fun x : ℚ => [x, x + 1]) [1, 2, 3] = 85 / 6 := by
-  norm_num [dynTerm, mean, wsq, sq]
+  norm_num [dynTerm, mean, wsq, sqr]
 
 example : dynTerm (.scalar 3) (fun x : ℚ => [x, x + 1]) [1, 2, 3] = 43 := by
-  norm_num [dynTerm, mean, wsq, sq]
+  norm_num [dynTerm, mean, wsq, sqr]
 
 /-- the hypotheses of `dynTerm_perm`, `dynTerm_halves`, `dynTerm_add_vec` are met by non-trivial data -/
 example : dynTerm (.vec [2, 3]) (fun n : Nat => [(n : ℚ), 1]) [1, 2, 3, 4] =
@@ -251,7 +251,7 @@ example : dynTerm (.vec [2, 3]) (fun n : Nat => [(n : ℚ), 1]) [1, 2, 3, 4] =
   dynTerm_perm _ _ (by decide)
 example : ([1, 2] : List ℚ).length = ([3, 4] : List ℚ).length := rfl
 example : dynTerm (.scalar 1) (fun x : ℚ => [x]) ([1, 2] ++ [3, 4]) = 15 / 2 := by
-  norm_num [dynTerm, mean, wsq, sq]
+  norm_num [dynTerm, mean, wsq, sqr]
 
 /-- the sum really distinguishes the configurations: a fully configured non-stationary loss -/
 example : (evalNonStatio (some 1) (some 2) (some 3) (some 4) (some 5)).1 = 15 := by
